@@ -1,5 +1,6 @@
 import Modbus.Driver.JudgePacket
 import Modbus.Driver.Regs
+import Modbus.Driver.Split
 import Std.Data.HashSet
 import Std.Data.HashMap
 /-
@@ -31,7 +32,10 @@ def dispatch (prop : String) (ts : List String) : Option Family :=
   | none =>
     match parseRegsOp ts with
     | some op => some { modelOut := op.modelOut, kf := none, expect := op.judge prop, kind := "regs" }
-    | none => none
+    | none =>
+      match parseSplitOp ts with
+      | some op => some { modelOut := op.modelOut, kf := none, expect := op.judge prop, kind := "split" }
+      | none => none
 
 structure St where
   lines : Nat := 0
